@@ -425,6 +425,7 @@ type Listener struct {
 	Addr     netip.AddrPort
 	Spec     SynAckSpec
 	Accepted []netip.AddrPort // remote (client) address of each accepted connection
+	ConnAck  map[uint16]uint32 // client port -> acknowledgement number of that connection's SYN-ACK (its sequence base)
 	conns    []net.Conn
 	// Client is filled when the first connection is accepted
 	OnAccept func(n *Net, l *Listener, client netip.AddrPort)
@@ -484,6 +485,10 @@ func (l *Listener) poll(n *Net) {
 		}
 		connIdx := uint32(len(l.Accepted) - 1)
 		isn, ackNum := l.Spec.ISN+connIdx*0x01000000, l.Spec.AckNum+connIdx*0x00100000 // every connection has its own sequence space
+		if l.ConnAck == nil {
+			l.ConnAck = map[uint16]uint32{}
+		}
+		l.ConnAck[client.Port()] = ackNum
 		mk := func(srv, cli netip.AddrPort) []byte {
 			var opts []byte
 			opts = append(opts, refcodec.OptMSS(1460)...)
